@@ -209,7 +209,7 @@ fn record(rep: &mut Report, c: &Case, res: Res, ticks: u64) {
         Res::Err(k) => { rep.obs("returned_err", 1); rep.obs(&format!("err_{}", k.split("::").next().unwrap_or("?")), 1); }
         Res::Slow => rep.obs("slow_but_returned_within_retry_budget", 1),
         Res::Panic(sig) => { let full = format!("panic {sig}"); if !rep.violations.contains_key(&full) { let cj = minimise(c, &full).to_json(); rep.violation(full, || json!({"case": cj, "expected": "Ok or Err", "observed": "unwinding panic"})); } else { rep.violation(full, || Value::Null); } }
-        Res::Hang(sig) => { let full = format!("hang {sig}"); let cj = minimise(c, &full).to_json(); rep.violation(full, || json!({"case": cj, "expected": "return within the step budget", "observed": format!("budget {} exhausted repeatedly", b)})); }
+        Res::Hang(sig) => { rep.obs("hangs", 1); let full = format!("hang {sig}"); if !rep.violations.contains_key(&full) { let cj = minimise(c, &full).to_json(); rep.violation(full, || json!({"case": cj, "expected": "return within the step budget", "observed": format!("budget {} exhausted repeatedly", b)})); } else { rep.violation(full, || Value::Null); } }
         Res::Superlinear => { let full = "superlinear backtracking (ellipsis/optional): returned only within 64x the step budget".to_string(); if !rep.violations.contains_key(&full) { let cj = minimise(c, &full).to_json(); rep.violation(full, || json!({"case": cj, "expected": "return within a budget proportional to |word| x |rule|", "observed": "needed more than 2x and less than 64x the budget"})); } else { rep.violation(full, || Value::Null); } }
         Res::Growth(n) => { let cj = c.to_json(); rep.violation("growth".into(), || json!({"case": cj, "expected": "output size bounded by 64 x |words| x |rules|", "observed": n})); }
     }
@@ -232,6 +232,8 @@ fn worker(seed: u64, start: u64, end: u64, cur: Option<&mut std::fs::File>, corp
         }
         let (res, ticks) = run_case(&c);
         record(&mut rep, &c, res, ticks);
+        // every hang costs two exhausted budgets; once a slice has seen this many the verdict is settled and the rest is skipped
+        if rep.observed.get("hangs").cloned().unwrap_or(0) >= 40 { rep.notes.push("a slice stopped early after 40 hangs".into()); rep.obs("cases_skipped_after_too_many_hangs", end - idx - 1); break }
     }
     rep
 }
@@ -249,6 +251,19 @@ pub fn child(ctx: &Ctx) -> Option<Report> {
 pub fn explore(ctx: &Ctx, shard: usize, n: usize) -> Report {
     if let Some(s) = show(ctx) { if shard == 0 { println!("{s}"); } return Report::default() }
     if ctx.args.iter().any(|a| a == "--child") { return if shard == 0 { child(ctx).unwrap_or_default() } else { Report::default() } }
+    if ctx.args.iter().any(|a| a == "--miri-slice") {
+        // under Miri: no child processes; a small in-process slice aimed at the `unsafe` code (named escapes -> char::from_u32_unchecked,
+        // place getters -> unwrap_unchecked) plus the first cases of the ordinary stream
+        if shard != 0 { return Report::default() }
+        let corpus = Corpus::load(&ctx.repo);
+        let mut rep = worker(ctx.seed, 0, 40, None, &corpus);
+        let names = ["Space", "Grave", "Acute", "Circumflex", "Tilde", "Macron", "OverLine", "Breve", "OverDot", "Umlaut", "OverHook", "OverRing", "DoubleAcute", "Caron", "DoubleGrave", "InvBreve", "Horn", "UnderDot", "UnderUmlaut", "UnderRing", "UnderComma", "Cedilla", "Ogonek", "over dot", "dotabove", "RING", "nonsense", ""];
+        for n in names {
+            let c = Case { groups: vec![vec!["a > e / _#".into()]], words: vec!["pa.ta".into(), "ˈsaː".into()], into: vec![format!("+@{{{n}}} > [+nasal]")], from: vec![format!("V:[+stress] > +@{{{n}}}"), format!("t > @{{{n}}}x\\u{{00FE}}")], entry: 0, family: "named-escape" };
+            let (res, ticks) = run_case(&c); record(&mut rep, &c, res, ticks);
+        }
+        return rep;
+    }
     // parent: each of the n threads supervises one child process over its slice of the index space
     let total = ctx.pick(400_000, 12_000_000);
     let per = total / n as u64;
